@@ -315,7 +315,7 @@ from simkit import refdec
 for i in order:
     data, _ = c12.solo(plan["workloads"][i])
     r = refdec.decode_stream(data, True, strict=False)
-    bag = hashlib.sha256(repr(sorted(r.items, key=repr)).encode("utf-8", "backslashreplace")).hexdigest() if r.ok else "invalid"
+    bag = hashlib.sha256(repr(sorted(set(r.items), key=repr)).encode("utf-8", "backslashreplace")).hexdigest() if r.ok else "invalid"
     out[i] = hashlib.sha256(data).hexdigest() + ":" + bag
 print(json.dumps(out))
 """
@@ -331,7 +331,7 @@ def subproc_side(plan, sim):
     for i, w in enumerate(wl):
         data = solo(w)[0]
         r = refdec.decode_stream(data, True, strict=False)
-        bag = hashlib.sha256(repr(sorted(r.items, key=repr)).encode("utf-8", "backslashreplace")).hexdigest() \
+        bag = hashlib.sha256(repr(sorted(set(r.items), key=repr)).encode("utf-8", "backslashreplace")).hexdigest() \
             if r.ok else "invalid"
         mine[str(i)] = hashlib.sha256(data).hexdigest() + ":" + bag
     tmp = tempfile.mkdtemp(prefix="c12-")
